@@ -8,7 +8,18 @@ TB = ("Trusted: rustc's name resolution, type check and MIR construction; the pm
       "the rule tables in pmh/rules (each row confirmed by reading the code); Python. A pass means the named "
       "structural clauses hold on every path of the current source; it does not establish the statistical behaviour.")
 
+STRUCT_TXT = ("Decides named structural clauses of the property (each a necessary condition) on every path of the current source: %s. "
+              "It does not decide the statistical / value-level behaviour, which no static argument in reach can bound.")
+
 CLAIMED = {
+ "C02": dict(category="other",
+   text=STRUCT_TXT % "seed provenance by backward slice (item key only, never weight/index/tracker state); draw-protocol automaton inclusion for ProbMinHash3/3a/3aSha on the MIR CFG; guarded and paired register/signature writes; legitimacy of every loop exit and deferral filter (comparison with an unmodified tracker maximum); pure delegation of entry points; sibling agreement of idxmap/hashmap/Sha variants; per-item permutation reset",
+   technique="custom static analysis over rustc HIR/MIR: backward slicing, CFG x DFA product, control-dependence of writes, loop-exit classification, sibling normal-form comparison",
+   ref="DESIGN.md §4 C02"),
+ "C04": dict(category="other",
+   text=STRUCT_TXT % "guarded improving register writes for the five unweighted sketchers; provenance of written values and seeds; legitimacy of early exits (a_upper, lower_k with tabled strictness); exactly-once item_rank increment and marker discipline; per-item permutation reset; pure delegation of sketch_slice (+ finisher); paired stored hashes; order-insensitive tie-break of payload registers",
+   technique="custom static analysis over rustc HIR: control-dependence and guard matching of register writes, backward slicing, loop-exit classification, dominance of reset over draw",
+   ref="DESIGN.md §4 C04"),
  "C19": dict(category="proof",
    text="Full proof for all 2^32 / 2^64 inputs: the four functions are abstractly interpreted from their type-checked HIR in two exact domains (affine mod 2^w, GF(2)-affine bit matrices); obligations: hash is a bijection, inverse o hash = id, hash o inverse = id, per width; discharged by exact integer / bit-matrix arithmetic.",
    technique="abstract interpretation (exact affine mod 2^w and GF(2)-linear domains) over rustc HIR with segment cancellation",
